@@ -401,11 +401,11 @@ PROPS["C08"] = {
     "title": "Shard assignment is a pure, strand-symmetric function of the k-mer",
     "kani": lambda tier: kfam(["k_min_rc", "k_to_u64", "k_rc"], tier, 2, 8) + exts(["x_from_slice_bounds"]) + lmer(["l_from_slice"], tier),
     "verus": [("scan", r"^(Scanner::(scan|lemma_same_bucket|lemma_same_bucket_rc|lemma_min_over_kmer|lemma_result|lemma_iv_mid|lemma_iv_last|lemma_pair)|Exts::from_slice_bounds|lemma_sub_window|lemma_sub_window_rc|lemma_flank_bits)$"),
-              ("mspscore", None), ("msppiece", r"^piece_of$|^MspInterval::bucket$|^VmerFromSlice::from_slice$"), ("extsdna", r"^Exts::from_dna_string$|^lemma_flank_bits$")],
+              ("mspscore", None), ("msppiece", r"^piece_of$|^shards_of$|^MspInterval::bucket$|^VmerFromSlice::from_slice$"), ("extsdna", r"^Exts::from_dna_string$|^lemma_flank_bits$")],
     "bounded": lambda tier: [("msp::verif::m_msp_sequence_short", "msp_sequence on reads of exactly k = 3, and k - 1, bases (P = Kmer2, DnaBytes pieces)")],
     "design_ref": "DESIGN.md §6 C08",
     "undecided": [
-        "msp_sequence as a whole (unwrap_or_else, into_iter().map().collect()): its three ingredients are under contract separately - the score closure (unit mspscore), Scanner::scan (C07) and the REAL body of the piece closure (unit msppiece, rule R15: bucket = the interval's bucket, piece = the exact substring at (start, len) - Vmer::from_slice's REAL default body is proved in the same unit (rule R20 desugars its enumerate) against the trait-level new / set_mut contracts -, boundary extensions = the read's flanking bases) - but the iterator pipeline that applies the piece closure to every interval is only covered by a bounded stand-in on reads of k and k-1 bases (6 bases already exhaust CBMC)",
+        "msp_sequence as a whole (unwrap_or_else, into_iter().map().collect()): its three ingredients are under contract separately - the score closure (unit mspscore), Scanner::scan (C07) and the REAL body of the piece closure (unit msppiece, rule R15: bucket = the interval's bucket, piece = the exact substring at (start, len) - Vmer::from_slice's REAL default body is proved in the same unit (rule R20 desugars its enumerate) against the trait-level new / set_mut contracts -, boundary extensions = the read's flanking bases) - and the closing expression that applies the piece closure to every interval (msppiece::shards_of, R15 + R21: `into_iter().map(f).collect()` as the seam map_collect_vec, f the real closure): the shards returned are, in order, the pieces of the scanner's intervals; the head of the function (default permutation, `unwrap_or_else`, building the Scanner) is covered only by the bounded stand-in on reads of k and k-1 bases (6 bases already exhaust CBMC)",
         "the glue between the pieces (msp_sequence passes exactly this closure to Scanner::new; the default permutation 0..4^p is a permutation) is by inspection, not a discharged obligation"],
     "trust": VERUS_TRUST + [SEAM_NOTE],
     "level_text": "Proved as lemmas over the verified contract of the real Scanner::scan (C07): for two scans - of any two reads - whose score functions agree and identify p-mers up to a class, two occurrences of the same k-mer (lemma_same_bucket) or an occurrence and a reverse-complement occurrence under a strand-symmetric score (lemma_same_bucket_rc) receive minimizers of the same class, hence the same bucket id (bucket = rank of the canonical minimizer; min_rc / to_u64 proved by Kani for all p-mer values). Exts::from_slice_bounds and Exts::from_dna_string are proved to return exactly the read's two flanking bases and none at a read end, for every length (Verus, unbounded, real bodies). The REAL score closure of msp_sequence (statement extracted by rule R15) is proved to compute perm[rank x] resp. min(perm[rank x], perm[rank rc x]), and two lemmas show that such a score over an injective table is strand symmetric and identifies p-mers up to reverse complement - the hypotheses of the bucket lemmas. The REAL body of msp_sequence's piece closure (rule R15) is proved to turn an interval into (its bucket, the read's flanking bases as boundary extensions, the exact substring at (start, len)).",
